@@ -1,6 +1,8 @@
 import GstProofs.LinAlg.Bridge
 import GstVerif.LinAlg.Driver
 import Mathlib.LinearAlgebra.Matrix.NonsingularInverse
+import Mathlib.Algebra.Order.BigOperators.Ring.Finset
+import Mathlib.Algebra.Order.BigOperators.Group.Finset
 /-!
 # C11 — Matrix and vector classes compute what linear algebra defines
 
@@ -91,5 +93,42 @@ theorem sort_perm (x : List Q) (asc : Bool) : (vsort x asc).Perm x := by
 /-! non-vacuity: a concrete 2×3 · 3×2 product -/
 example : (Mat.mul ⟨2, 3, [[1, 2, 3], [4, 5, 6]]⟩ ⟨3, 2, [[1, 0], [0, 1], [1, 1]]⟩).e = [[4, 5], [10, 11]] := by
   decide +kernel
+
+/-! ### what the residual certificates of inversion and solve mean -/
+section Certificates
+open Matrix
+variable {n : Type*} [Fintype n] [DecidableEq n]
+
+/-- **what a residual certificate of an inverse means**: if the residual `A·X − I` of the answer `X` is at most `ε` in every
+entry, `X` differs from the true inverse `A⁻¹` by at most `(Σₖ |A⁻¹ᵢₖ|)·ε` in entry `(i, j)` — whatever the size -/
+theorem inverse_certificate_bound (A X : Matrix n n ℚ) (hA : IsUnit A.det) (ε : ℚ)
+    (hres : ∀ k j, |(A * X - 1) k j| ≤ ε) (i j : n) :
+    |(X - A⁻¹) i j| ≤ (∑ k, |A⁻¹ i k|) * ε := by
+  have hX : X - A⁻¹ = A⁻¹ * (A * X - 1) := by
+    rw [Matrix.mul_sub, ← Matrix.mul_assoc, Matrix.nonsing_inv_mul _ hA, Matrix.one_mul, Matrix.mul_one]
+  rw [hX, Matrix.mul_apply, Finset.sum_mul]
+  refine le_trans (Finset.abs_sum_le_sum_abs _ _) (Finset.sum_le_sum fun k _ => ?_)
+  rw [abs_mul]
+  exact mul_le_mul_of_nonneg_left (hres k j) (abs_nonneg _)
+
+/-- … and of a linear solve: if `|A x − b| ≤ ε` in every component, `x` differs from the solution `A⁻¹ b` by at most
+`(Σₖ |A⁻¹ᵢₖ|)·ε` in component `i` -/
+theorem solve_certificate_bound (A : Matrix n n ℚ) (x b : n → ℚ) (hA : IsUnit A.det) (ε : ℚ)
+    (hres : ∀ k, |(A *ᵥ x - b) k| ≤ ε) (i : n) :
+    |(x - A⁻¹ *ᵥ b) i| ≤ (∑ k, |A⁻¹ i k|) * ε := by
+  have hx : x - A⁻¹ *ᵥ b = A⁻¹ *ᵥ (A *ᵥ x - b) := by
+    rw [Matrix.mulVec_sub, Matrix.mulVec_mulVec, Matrix.nonsing_inv_mul _ hA, Matrix.one_mulVec]
+  rw [hx]
+  show |∑ k, A⁻¹ i k * (A *ᵥ x - b) k| ≤ _
+  rw [Finset.sum_mul]
+  refine le_trans (Finset.abs_sum_le_sum_abs _ _) (Finset.sum_le_sum fun k _ => ?_)
+  rw [abs_mul]
+  exact mul_le_mul_of_nonneg_left (hres k) (abs_nonneg _)
+
+/-- an exact certificate is the inverse -/
+theorem inverse_certificate_exact (A X : Matrix n n ℚ) (h : A * X = 1) : X = A⁻¹ :=
+  (Matrix.inv_eq_right_inv h).symm
+
+end Certificates
 
 end GstProofs.C11
